@@ -315,7 +315,12 @@ func generateAll(s *xds.FakeDiscoveryServer, p *model.Proxy) map[string]string {
 	out := map[string]string{}
 	req := &model.PushRequest{Push: s.PushContext(), Start: time.Now(), Forced: true}
 	put := func(kind string, rs model.Resources) {
-		for _, r := range rs {
+		for i, r := range rs {
+			if r == nil || r.Resource == nil {
+				// a hole in the response (e.g. a partial cache hit returned as a full one)
+				out[fmt.Sprintf("%s/<nil resource #%d>", kind, i)] = "nil"
+				continue
+			}
 			b, _ := proto.MarshalOptions{Deterministic: true}.Marshal(r.Resource)
 			h := sha256.Sum256(b)
 			out[kind+"/"+r.Name] = hex.EncodeToString(h[:8])
